@@ -266,7 +266,7 @@ class Stats:
 
 
 def explore(ctx, cfgname, depth, state_fn, trans_fn=None, on_violation=None, hlimit=20000,
-            stats=None, max_states=None, collect=None):
+            stats=None, max_states=None, collect=None, root=(), label=None):
     """BFS over bisection histories of configuration `cfgname` up to `depth`.
 
     state_fn(cfg, hist, mesh, ref) -> (violations, extra) is evaluated once per distinct state;
@@ -278,21 +278,22 @@ def explore(ctx, cfgname, depth, state_fn, trans_fn=None, on_violation=None, hli
     t0 = time.time()
     seen = set()
     leafsets = set()
-    m0 = build(cfg, ())
+    root = tuple(root)
+    m0 = build(cfg, root)
     seen.add(fingerprint(m0))
     leafsets.add(digest(sorted(leafset(m0))))
-    frontier = [()]
+    frontier = [root]
     n_states = 1
     n_trans = 0
     # determinism self-check on the root
-    if fingerprint(build(cfg, ())) != fingerprint(m0):
+    if fingerprint(build(cfg, root)) != fingerprint(m0):
         raise common.HarnessError('non-deterministic build of ' + cfgname)
-    viols, extra = _visit(())
+    viols, extra = _visit(root)
     st.add_extra(extra)
     for v in viols:
-        on_violation(cfgname, (), v)
+        on_violation(cfgname, root, v)
     if collect is not None:
-        collect.append(())
+        collect.append(root)
     capped = False
     reached = 0
     for d in range(depth):
@@ -333,7 +334,7 @@ def explore(ctx, cfgname, depth, state_fn, trans_fn=None, on_violation=None, hli
     st.states += n_states
     st.transitions += n_trans
     st.leafsets += len(leafsets)
-    st.per_cfg[cfgname] = {'depth': reached, 'states': n_states, 'transitions': n_trans,
+    st.per_cfg[label or cfgname] = {'depth': reached, 'root_len': len(root), 'states': n_states, 'transitions': n_trans,
                            'leafsets': len(leafsets), 'capped': capped,
                            'wall_s': round(time.time() - t0, 1)}
     if frontier:
@@ -342,15 +343,16 @@ def explore(ctx, cfgname, depth, state_fn, trans_fn=None, on_violation=None, hli
     return st
 
 
-def all_states(ctx, cfgname, depth, key='fp'):
+def all_states(ctx, cfgname, depth, key='fp', root=()):
     """List of histories, one per distinct state (key 'fp') or per distinct leaf set (key 'leaf')."""
     cfg = CFGS[cfgname]
     seen = set()
     out = []
-    frontier = [()]
-    m0 = build(cfg, ())
+    root = tuple(root)
+    frontier = [root]
+    m0 = build(cfg, root)
     seen.add(fingerprint(m0) if key == 'fp' else digest(sorted(leafset(m0))))
-    out.append(())
+    out.append(root)
     _G.update(cfg=cfg, state_fn=None, trans_fn=None, hlimit=20000)
     for d in range(depth):
         results = pmap(_expand, frontier, ctx.jobs if len(frontier) > 8 else 1)
